@@ -2,7 +2,7 @@
 // go/parser (no type checking) and prints JSON
 //
 //	{file: {"error": "...",
-//	        "types":   [{"name": N, "struct": bool, "tparams": k}],          top-level type declarations, file order
+//	        "types":   [{"name": N, "struct": bool, "tparams": k, "tpnames": [names]}],          top-level type declarations, file order
 //	        "methods": [{"recv": R, "name": M, "np": k, "variadic": bool, "nr": k}]}}   method declarations, file order
 //
 // recv is the receiver's base type name (pointer and type arguments stripped); np / nr count
@@ -21,6 +21,8 @@ type typeDecl struct {
 	Name    string `json:"name"`
 	Struct  bool   `json:"struct"`
 	TParams int    `json:"tparams"`
+	// TPNames are the names of the type parameters as written
+	TPNames []string `json:"tpnames"`
 }
 
 type methodDecl struct {
@@ -91,7 +93,15 @@ func main() {
 				for _, s := range x.Specs {
 					ts := s.(*ast.TypeSpec)
 					_, isStruct := ts.Type.(*ast.StructType)
-					fi.Types = append(fi.Types, typeDecl{Name: ts.Name.Name, Struct: isStruct, TParams: count(ts.TypeParams)})
+					names := []string{}
+					if ts.TypeParams != nil {
+						for _, f := range ts.TypeParams.List {
+							for _, n := range f.Names {
+								names = append(names, n.Name)
+							}
+						}
+					}
+					fi.Types = append(fi.Types, typeDecl{Name: ts.Name.Name, Struct: isStruct, TParams: count(ts.TypeParams), TPNames: names})
 				}
 			case *ast.FuncDecl:
 				if x.Recv == nil || len(x.Recv.List) != 1 {
